@@ -10,10 +10,20 @@ import traceback
 HERE = os.path.dirname(os.path.abspath(__file__))
 GEN = os.path.join(HERE, '..', 'coq', 'Gen')
 
-MODULES = {
-    'GenLex': 'translator.gen_lex',
-    'GenProps': 'translator.gen_props',
-}
+def _discover():
+    """every translator/gen_<x>.py with a generate() function produces coq/Gen/<NAME>.v
+    (NAME attribute, default Gen<X>)"""
+    import glob
+    mods = {}
+    for f in sorted(glob.glob(os.path.join(HERE, 'gen_*.py'))):
+        base = os.path.basename(f)[:-3]
+        mod = importlib.import_module('translator.' + base)
+        if hasattr(mod, 'generate'):
+            mods[getattr(mod, 'NAME', 'Gen' + base[4:].capitalize())] = 'translator.' + base
+    return mods
+
+
+MODULES = _discover()
 
 
 def main(argv):
